@@ -1,6 +1,9 @@
 package twig
 
-import "strconv"
+import (
+	"strconv"
+	"time"
+)
 
 // C03: output is a deterministic function of templates and context. Public API only.
 // The engine's map-iteration adversary is switched on around the second render: every `range` over
@@ -229,4 +232,35 @@ func VH_C03_DateFormat() {
 		// a single format character has its documented meaning
 		symAssert(out == want, "date-format-letter-meaning")
 	}
+}
+
+// VH_C03_DateValue: a timestamp given as a number (int, int64, float64, numeric string) denotes one
+// fixed instant, before and after 1970 alike; only the documented "now" values (nil, 0, '', 'now')
+// depend on the clock. Rendered twice (the clock moves between the two) and compared with the
+// calendar arithmetic of the time package.
+func VH_C03_DateValue() {
+	ts := []int64{-299849385, -1, 1, 59, -86400, 951782400, 1709651049, -2208988800, 4102444800}[symChoice(9)]
+	var v interface{}
+	switch symChoice(4) {
+	case 0:
+		v = int(ts)
+		symTag("shape:int")
+	case 1:
+		v = ts
+		symTag("shape:int64")
+	case 2:
+		v = float64(ts)
+		symTag("shape:float64")
+	case 3:
+		v = strconv.FormatInt(ts, 10)
+		symTag("shape:string")
+	}
+	want := time.Unix(ts, 0).Format("2006-01-02 15:04:05")
+	ctx := map[string]interface{}{"d": v}
+	o1, e1 := vhR("{{ d|date('Y-m-d H:i:s') }}", ctx)
+	o2, e2 := vhR("{{ d|date('Y-m-d H:i:s') }}", ctx)
+	symCover("rendered")
+	symAssert(e1 == nil && e2 == nil, "renders")
+	symAssert(o1 == o2, "same-timestamp-same-output")
+	symAssert(o1 == want, "timestamp-denotes-its-instant")
 }
